@@ -1,4 +1,6 @@
-"""C20 -- library semantic predicates. Proved (AST): call-shape of the octal_to_dec dispatch chain; path helpers used by count. Bounded: exhaustive small scope for count, octal_to_decimal, crop/just."""
+"""C20 -- library semantic predicates.  Proved: decision logic of crop / just (all six justify-crop predicates) /
+count / octal_to_dec_both_trees on closed arguments from their real text (over assumed parser / str / int contracts),
+call-shape of the octal_to_dec dispatch chain, path helpers.  Bounded: exhaustive small scope end-to-end."""
 from vlib.harness import proved_tier
 from checks import bounded_C20
 
@@ -8,7 +10,7 @@ LEVEL = "other"
 def run(rep, tier, seed):
     from checks import syntactic
     syntactic.run(rep, "C20")
-    proved_tier(rep, "C20", seed, expected_min_obligations=2)
+    proved_tier(rep, "C20", seed, expected_min_obligations=20)
     bounded_C20.run(rep, tier, seed)
 
 
